@@ -119,7 +119,9 @@ static int check_nodes(double slack_ulps, bool multi)
         xt::xtensor<double, 2> h = routed;
         xt::xtensor<double, 2> area = xt::ones<double>({ 5, 6 });
         double kdt = std::pow(10.0, U(rng) * 3 - 10);   // 1e-10 .. 1e20
-        auto er = fs::make_spl_eroder(*g, kdt, 0.4, 1.0, 1e-6);
+        // n != 1 (single direction only): for n < 1 the Newton step overshoots below the floor, which is where the clamp matters
+        const double nexp = multi ? 1.0 : (it % 3 == 0 ? 1.0 : (it % 3 == 1 ? 0.5 : 2.0));
+        auto er = fs::make_spl_eroder(*g, kdt, 0.4, nexp, 1e-6);
         for (int call = 0; call < 2 && !bad; ++call)   // twice: the reset at the start of every call
         {
             xt::xtensor<double, 2> hh = h;
@@ -144,7 +146,7 @@ static int check_nodes(double slack_ulps, bool multi)
                     double nu = hh.flat(i) - e(i);
                     double tol = slack_ulps * std::numeric_limits<double>::epsilon() * std::max(1.0, std::fabs(hh.flat(i)));
                     if (!(nu >= floor - tol))
-                    { std::printf("node %zu: new elevation %.17g below its lowest receiver's new elevation %.17g (K dt=%g, call %d)\n", i, nu, floor, kdt, call); bad = 1; }
+                    { std::printf("node %zu: new elevation %.17g below its lowest receiver's new elevation %.17g (K dt=%g, n=%g, call %d)\n", i, nu, floor, kdt, nexp, call); bad = 1; }
                 }
             }
         }
